@@ -151,8 +151,12 @@ def check(prog, res, tier):
     for nm in sorted(names - params - assigned):
         r = prog.resolve_name(cfi.module, nm)
         if r is not None and r[0] == 'const' and isinstance(r[1], (ast.List, ast.Dict, ast.Set, ast.ListComp, ast.DictComp, ast.SetComp, ast.Call)):
-            if isinstance(r[1], ast.Call) and isinstance(r[1].func, ast.Name) and r[1].func.id in ('tuple', 'frozenset', 'range', 'int', 'str', 'bytes'):
+            if isinstance(r[1], ast.Call) and isinstance(r[1].func, ast.Name) and r[1].func.id in (
+                    'tuple', 'frozenset', 'range', 'int', 'str', 'bytes', 'partial', 'methodcaller', 'itemgetter', 'attrgetter'):
                 continue
+            if isinstance(r[1], ast.Call) and ast.unparse(r[1].func) in ('functools.partial', 'operator.methodcaller',
+                                                                         'operator.itemgetter', 'operator.attrgetter', 're.compile'):
+                continue      # immutable callables / compiled patterns
             free.append(nm)
     if ob.verdict == UNDECIDED and ob_arith.abstract and not free:
         # the fold evaluator derived a closed form over (n, k, D): its fragment has no effects and reads nothing but the argument
